@@ -4,9 +4,11 @@ from __future__ import annotations
 import collections
 import os
 import pathlib
+import random
 import shutil
 import subprocess
 import sys
+import zlib
 from typing import Any, Dict, List, Optional, Tuple
 
 from hypothesis import strategies as st
@@ -112,9 +114,11 @@ def cases(draw: Any) -> Dict[str, Any]:
         if not applicable:
             case["kind"] = "accepted"
             return case
-        op, pairs = applicable[draw(st.integers(0, len(applicable) - 1))]
-        s1, s2 = pairs[draw(st.integers(0, len(pairs) - 1))]
-        if draw(st.booleans()):
+        # uniform choice through a PRNG seeded by Hypothesis (its integer draws favour small values)
+        rng = random.Random(draw(st.integers(0, 2 ** 32 - 1)) ^ zlib.crc32(text.encode("utf-8")))
+        op, pairs = rng.choice(applicable)
+        s1, s2 = rng.choice(pairs)
+        if rng.random() < 0.5:
             s1, s2 = s2, s1
         case["op"] = op.name
         case["s1"] = s1
@@ -358,7 +362,7 @@ def _joint(case: Dict[str, Any], d: pathlib.Path, res: Dict[str, Any]) -> None:
 
 
 def shard(ctx: runner.Ctx) -> None:
-    n = ctx.n(1_600, 160_000)
+    n = ctx.n(1_600, 60_000)
     counter = {"i": 0}
 
     def one(case: Dict[str, Any]) -> None:
